@@ -2,6 +2,8 @@
 import itertools
 import json
 
+import numpy as np
+
 from vt import ctx as C
 from vt import expr as E
 from vt import harness as H
@@ -97,6 +99,58 @@ class LccCase(Case):
     return (this, tfc.sym([cfg['n'], cfg['units']], 'w')), {}
 
 
+class LayerWiringCase(Case):
+  """The weight constraint the real build() of Linear / CategoricalCalibration attaches is the constraint class under
+  contract, configured with the layer's own hyperparameters: applied to a symbolic kernel it gives what a fresh constraint
+  object built from the constructor arguments gives (so the contracts of `lcc` / `ccc` are statements about the LAYER)."""
+  contract_key = None
+  xcheck = False
+
+  def body(self, cfg, c):
+    try:
+      return self._body(cfg, c)
+    except (ValueError, TypeError, IndexError, KeyError, AssertionError, ZeroDivisionError) as e:
+      if isinstance(e, (tfc.NoContract, E.SymbolicValueError)):
+        raise
+      # a valid configuration (its constraint object can be built from the same hyperparameters) must build
+      return [('layer-builds-and-its-constraint-applies: raised %s: %s' % (type(e).__name__, str(e)[:80]), E.FALSE)]
+
+  def _body(self, cfg, c):
+    cl = []
+    if cfg['layer'] == 'linear':
+      ly = load.mod('linear_layer')
+      monos, md, rd, imin, imax, norm = _linear_args(cfg)
+      kw = dict(num_input_dims=cfg['n'], units=cfg['units'], monotonicities=monos, monotonic_dominances=md, range_dominances=rd,
+                input_min=imin, input_max=imax, normalization_order=norm, use_bias=cfg.get('bias', True))
+      layer = ly.Linear(**kw)
+      layer.build(tfc.TensorShape([None, cfg['n']] if cfg['units'] == 1 else [None, cfg['units'], cfg['n']]))
+      ref = ly.LinearConstraints(monotonicities=monos, monotonic_dominances=md, range_dominances=rd, input_min=imin,
+                                 input_max=imax, normalization_order=norm)
+      need = any(monos) or bool(md) or bool(rd) or bool(norm)
+    else:
+      ly = load.mod('categorical_calibration_layer')
+      lo = {'none': None, 'min': 0.0, 'max': None, 'both': -1.0}[cfg['bounds']]
+      hi = {'none': None, 'min': None, 'max': 0.0, 'both': 2.0}[cfg['bounds']]
+      pairs = [tuple(p) for p in cfg['pairs']] or None
+      layer = ly.CategoricalCalibration(num_buckets=cfg['n'], units=cfg['units'], output_min=lo, output_max=hi,
+                                        monotonicities=pairs, kernel_initializer='constant')
+      layer.build(tfc.TensorShape([None, cfg['units']]))
+      ref = ly.CategoricalCalibrationConstraints(output_min=lo, output_max=hi, monotonicities=pairs)
+      need = lo is not None or hi is not None or bool(pairs)
+    kc = getattr(layer.kernel, 'constraint', None)
+    cl.append(('constraint-attached-when-the-layer-has-constraints', B.const((kc is not None) or not need)))
+    if kc is None:
+      return cl
+    w = tfc.sym(list(layer.kernel.a.shape), 'w')
+    got, want = kc(w), ref(w)
+    cl.append(('same-shape', B.const(tuple(got.a.shape) == tuple(want.a.shape))))
+    if tuple(got.a.shape) == tuple(want.a.shape):
+      for idx in np.ndindex(*got.a.shape):
+        cl.append(('layer-constraint-is-the-constraint-of-its-hyperparameters%s' % (list(idx),),
+                   P.lift(got.a[idx]).eq(P.lift(want.a[idx]))))
+    return cl
+
+
 class TopoCase(Case):
   """internal_utils._topological_sort on concrete pair sets: the result is a linear extension
   that contains every node of the pair set (evaluated, the input is concrete)."""
@@ -123,7 +177,7 @@ class TopoCase(Case):
 
 
 CASES = {'ppm': PpmCase(), 'cp': CpCase(), 'ccc': CccCase(), 'lp': LpCase(), 'lcc': LccCase(),
-         'topo': TopoCase()}
+         'topo': TopoCase(), 'layer_wiring': LayerWiringCase()}
 
 
 def all_dags(n):
@@ -161,6 +215,12 @@ def linear_space(n):
     same = [(a, b) for a in range(n) for b in range(n)
             if a != b and monos[a] == monos[b] and monos[a] != 0]
     rd_opts = [[]] + [[list(p)] for p in same]
+    # a dimension taking part in SEVERAL range dominances (shared dominant, shared weak, chain), either direction
+    for sgn in (1, -1):
+      grp = [i for i in range(n) if monos[i] == sgn]
+      if len(grp) >= 3:
+        a, b, c_ = grp[:3]
+        rd_opts += [[[a, b], [a, c_]], [[a, c_], [b, c_]], [[a, b], [b, c_]]]
     for md in md_opts:
       for rd in rd_opts:
         for norm in (None, 1, 2):
@@ -206,13 +266,16 @@ def configs(tier, rng):
   for u in (1, 2):
     for b in bk:
       jobs.append(('cp', dict(n=3, units=u, pairs=[], bounds=b)))
+      for (n_, pairs) in ((3, []), (3, [[0, 1], [1, 2]]), (4, [[0, 1], [0, 2], [1, 3], [2, 3]]), (2, [[1, 0]])):
+        jobs.append(('layer_wiring', dict(layer='categorical', n=n_, units=u, pairs=pairs, bounds=b)))
   # linear
   lin = []
   for n in ((1, 2, 3) if tier == 'quick' else (1, 2, 3, 4)):
     lin += list(linear_space(n))
   if tier == 'quick':
     rng.shuffle(lin)
-    keep = [c for c in lin if c['n'] <= 2] + [c for c in lin if c['n'] == 3][:120]
+    multi = [c for c in lin if c['n'] == 3 and len(c['range_dom']) > 1]
+    keep = [c for c in lin if c['n'] <= 2] + [c for c in lin if c['n'] == 3 and len(c['range_dom']) <= 1][:120] + multi
     lin = keep
   for k, c in enumerate(lin):
     n = c['n']
@@ -232,6 +295,8 @@ def configs(tier, rng):
     for u in ((1, 2) if tier == 'thorough' else (1 + k % 2,)):
       jobs.append(('lp', dict(c, units=u)))
       jobs.append(('lcc', dict(c, units=u, spell=bool(k % 2))))
+      if k % (3 if tier == 'quick' else 1) == 0:
+        jobs.append(('layer_wiring', dict(c, layer='linear', units=u, bias=bool(k % 2))))
   out, seen = [], set()
   for j in jobs:
     key = json.dumps(j, sort_keys=True)
